@@ -49,3 +49,11 @@ claim("C11", "bounded-exhaustive enumeration of operation sequences, each execut
       "Every ordered sequence of <=3 (thorough 4) operations (unions, insertions, rewrite iterations) is run with numeric, order-reversed numeric, reverse-sorting textual, fresh-form $f<n> and shifted slot names; all eq answers, returned-invocation slots, slot sets, symmetry counts, ProgressMeasure, node count, class profile, min-size analysis data and best costs (AstSize, per-operator weighted) must be identical after mapping back.",
       "Differential oracle; the five renamings are fixed (they include the order-reversing and fresh-kind cases the statement names).",
       "DESIGN.md 5 C11")
+claim("C06", "bounded-exhaustive enumeration of operation sequences (incl. rewrite iterations) on the real e-graph, then exhaustive class x invocation x cost-function enumeration against a Bellman-Ford least fixpoint",
+      "For every explored sequence: Extractor::new for AstSize, depth-weighted and per-operator weighted costs; every live class under the identity and every injective renaming of its arguments into a 4-slot pool: extraction returns, the result is represented in exactly that invocation, cost_rec == get_best_cost == Bellman-Ford optimum over eg.enodes, free slots are arguments or brand-new; stale handles and the extract()/ast_size_extract() entry points too.",
+      "Costs are u64, strictly monotone; the Bellman-Ford reference reads the e-graph through eg.enodes().",
+      "DESIGN.md 3.4, 5 C06")
+claim("C05", "bounded-exhaustive enumeration of operation histories on the real e-graph, then every pattern / multi-pattern of a pool matched and every returned substitution validated read-only",
+      "For every explored history (all multisets of <=3 (thorough 4) operations, every ordering) 24 patterns via ematch_all and 10 multi-patterns via multi_ematch: every substitution binds all variables to well-formed invocations, the instantiated pattern is found by node-wise lookup, each multi-pattern equation holds, and the observable state is unchanged by matching.",
+      "Pattern pools are fixed lists over the Sym language (repeated variables, repeated/bound slots, nested nodes, shared slots between equations).",
+      "DESIGN.md 5 C05")
